@@ -17,5 +17,6 @@ try:
         rules = sorted(set(re.findall(r"^  rule=(\S+) construct=(\S+)", rr.stdout, re.M)))
         print(p, "exit", rr.returncode, rules if rr.returncode else "")
         if rr.returncode == 2: print(rr.stdout[-800:])
+        if os.environ.get("TRY_VERBOSE") and rr.returncode: print(rr.stdout[-6000:])
 finally:
     sh("git -C /repo worktree remove --force %s; rm -rf %s" % (WT, WT))
